@@ -3,7 +3,9 @@ package props
 import (
 	"bytes"
 	"crypto/sha256"
+	"encoding/asn1"
 	"fmt"
+	"math/big"
 	"math/rand"
 
 	"github.com/google/go-tdx-guest/abi"
@@ -47,7 +49,7 @@ func levelOf(i int) (bool, bool, string) {
 }
 
 func C01(c *core.Ctx) {
-	c.Rule = "valid quotes under fresh PKIs (auth data 0/32/700 bytes): single-bit mutants of the signed regions (header, TD body, attestation key, QE report, QE auth data, both signatures; all bits in the thorough tier, a stratified sample in the quick tier), structured forgeries (quote or QE report re-signed with a foreign key, swapped / zeroed / off-curve attestation key, zero and out-of-range signatures, broken hash binding with everything else re-signed, non-zero report-data tail, altered auth data, resized regions), random multi-byte mutation; each at one of the three option levels. Ground truth: an accepted input must satisfy the three links recomputed by the harness. non-trivial = the input still parses (reaches signature verification); distinct = distinct raw quotes"
+	c.Rule = "valid quotes under fresh PKIs (auth data 0/32/700 bytes): single-bit mutants of the signed regions (header, TD body, attestation key, QE report, QE auth data, both signatures; all bits in the thorough tier, a stratified sample in the quick tier), structured forgeries (quote or QE report re-signed with a foreign key, swapped / zeroed / off-curve attestation key, zero and out-of-range signatures, broken hash binding with everything else re-signed, non-zero report-data tail, altered auth data, resized regions), random multi-byte mutation; each at one of the three option levels; abi.SignatureToDER on edge-value and random 64-byte signatures (leading zeros, high bits, zero, all-ones) and on other lengths, compared with the model encoder and read back strictly. Ground truth: an accepted input must satisfy the three links recomputed by the harness. non-trivial = the input still parses (reaches signature verification); distinct = distinct raw quotes"
 	r := c.Rng
 	mk := func(authLen int) *world.World {
 		pki, err := world.NewPKI(r, world.PKIOpts{Now: baseTime, Ext: world.RandomSGXExt(r)})
@@ -245,4 +247,65 @@ func C01(c *core.Ctx) {
 		try(w, "random-mutation", fmt.Sprintf("%d random bytes", n), raw)
 	}
 	_ = rand.Int
+	c01Der(c)
+}
+
+// c01Der: abi.SignatureToDER against the model's encoder, and an independent
+// strict reading of the result (encoding/asn1 into two big integers).
+func c01Der(c *core.Ctx) {
+	r := c.Rng
+	var sigs [][]byte
+	edge := [][]byte{make([]byte, 32), bytes.Repeat([]byte{0xff}, 32), append([]byte{0x80}, make([]byte, 31)...), append([]byte{0x7f}, bytes.Repeat([]byte{0xff}, 31)...),
+		append(make([]byte, 31), 1), append(make([]byte, 31), 0x80), append([]byte{0, 0x80}, make([]byte, 30)...), append([]byte{0, 0x7f}, make([]byte, 30)...),
+		append(make([]byte, 16), bytes.Repeat([]byte{0xab}, 16)...), append([]byte{0, 0, 0, 0xff}, make([]byte, 28)...)}
+	for _, a := range edge {
+		for _, b := range edge {
+			sigs = append(sigs, append(append([]byte{}, a...), b...))
+		}
+	}
+	for i := 0; i < c.Scale(200, 5000); i++ {
+		s := core.RandBytes(r, 64)
+		for k := r.Intn(4); k > 0; k-- { // leading zero bytes in r and / or s
+			s[r.Intn(2)*32+k-1] = 0
+		}
+		sigs = append(sigs, s)
+	}
+	for _, n := range []int{0, 1, 32, 63, 65, 128} {
+		sigs = append(sigs, core.RandBytes(r, n))
+	}
+	for _, sg := range sigs {
+		var der []byte
+		var err error
+		pan := safely(func() { der, err = abi.SignatureToDER(sg) })
+		impl := resOk(core.Bs(der))
+		gt := ""
+		switch {
+		case pan != nil:
+			impl, gt = resPanic(), fmt.Sprintf("SignatureToDER panicked: %v", pan)
+		case err != nil:
+			impl = resErr(1)
+			if len(sg) == 64 {
+				gt = "a 64-byte signature was refused: " + err.Error()
+			}
+		case len(sg) != 64:
+			gt = fmt.Sprintf("a %d-byte signature was converted", len(sg))
+		default:
+			var v struct{ R, S *big.Int }
+			rest, e := asn1.Unmarshal(der, &v)
+			if e != nil || len(rest) != 0 {
+				gt = fmt.Sprintf("the DER form does not read back as SEQUENCE { INTEGER, INTEGER }: %v", e)
+			} else if v.R.Cmp(new(big.Int).SetBytes(sg[:32])) != 0 || v.S.Cmp(new(big.Int).SetBytes(sg[32:])) != 0 {
+				gt = "the DER form carries other numbers than r and s of the raw signature"
+			}
+		}
+		c.Add(&core.Case{Class: "signature-to-der", Desc: fmt.Sprintf("%d-byte signature %x..", len(sg), sg[:min2(len(sg), 4)]), Entry: "abi",
+			Input: core.Ls(core.A(6), core.Bs(sg)), Impl: impl, GT: gt, NonTrivial: len(sg) == 64})
+	}
+}
+
+func min2(a, b int) int {
+	if a < b {
+		return a
+	}
+	return b
 }
